@@ -267,6 +267,18 @@ def pmIntegrand (S : Setup α) (ωs ωi z : α) : Cx α := (coef S ωs ωi z).in
 /-- the integrand without diffraction -/
 def pmIdeal (S : Setup α) (ωs ωi z : α) : Cx α := (coef S ωs ωi z).ideal.integrand (S.apod z)
 
+/-- z component of `phasematch::delta_k` with the pump evaluated at `ω_s + ω_i`:
+`k_p − k_s·cos θ_s − k_i·cos θ_i − k_eff` (`wavevector = direction·n·ω/c`, pump along `ẑ`) -/
+def deltaKz (S : Setup α) (ωs ωi : α) : α :=
+  let ωp := ωs + ωi
+  let kp := freqToWavenumber ωp (S.nP ωp)
+  let ks := freqToWavenumber ωs (S.sig.n ωs)
+  let ki := freqToWavenumber ωi (S.idl.n ωi)
+  kp - ks * Transc.cos S.sig.theta - ki * Transc.cos S.idl.theta - S.keff
+
+/-- the argument of the sinc: `Δk_z · L / 2` -/
+def halfDkzL (S : Setup α) (ωs ωi : α) : α := deltaKz S ωs ωi * S.L * (0.5 : α)
+
 /-- a quadrature rule that is a fixed weighted sum of integrand values: `Σ f(xₖ)·wₖ`,
 accumulated left to right from zero (`Iterator::sum`) -/
 def quadSum (nodes : List (α × α)) (f : α → Cx α) : Cx α :=
